@@ -17,18 +17,24 @@
 
   Modelling decisions (all documented here, none hidden):
   * the writer mutex (`std::mutex` by default) is a spin lock: one exchange that succeeds iff free;
-  * `access_lock`'s store and the following seq_cst fence are ONE step (under SC the fence is a no-op);
-    the ghost section start is the clock of that step;
+  * `access_lock`'s store and the following seq_cst fence are ONE step (under SC the fence is a no-op), rendered
+    as the store event alone (the replay driver drops `fence` lines); the ghost section start is the clock of
+    that step;
   * the buffer (VyukovMPMCCycleQueue) is an atomic bounded FIFO bag: one step per push / pop / size();
     `bufCap` is the physical capacity (push fails when full), `cap` the RCU threshold `m_nCapacity`;
   * `clear_buffer` -> `push_buffer` -> `synchronize` -> `clear_buffer` is real recursion in the source; every
     frame does nothing after the inner call returns except `if (!bPushed) ep.free()`, so the model keeps the
     stack of not-pushed pointers (`own`, innermost first) and jumps;
-  * `general_buffered::synchronize()` loads `m_nCurEpoch` into a dummy `ep` whose pointer is null: dead load, omitted;
+  * `general_buffered::synchronize()` (the overload called by push_buffer and by the client) first loads
+    `m_nCurEpoch` into a dummy `ep` whose pointer is null, BEFORE taking the mutex: a dead load, modelled as
+    the step `syncLd` so that real traces can be replayed; the instant flavour has no such load;
+  * `check_grace_period` short-circuits: the global control word is loaded only when the nest count of the
+    loaded thread control word is non-zero (`waitLd` goes straight to the next thread otherwise);
   * `destruct` (Destruct / the destructor) runs `clear_buffer(max)`; the library contract is that no thread
     uses the RCU object any more: the model enables it only when every thread is idle and outside any
     critical section, and disables every later invocation.  For the instant flavour the source has no
-    buffer; the model runs the same loop over the (always empty) buffer.
+    buffer and Destruct frees nothing: the operation returns at once (the model's buffer is provably empty
+    in that flavour, `InvA.a13`).
   * client discipline: `runlock` only inside a section (the source asserts it); every object is retired at
     most once.  `synchronize`/`retire` are NOT restricted to threads outside a section (a thread that
     synchronizes inside its own section deadlocks; safety does not depend on it).
@@ -71,11 +77,12 @@ inductive PC
   | push (p : Obj) (tag : Nat) (own : List Obj)   -- next: m_Buffer.push
   | sizeLd (own : List Obj)      -- next: m_Buffer.size() >= capacity() ?
   -- synchronize
+  | syncLd (own : List Obj)      -- next: (buffered only) dead load of m_nCurEpoch at the top of synchronize()
   | acq (own : List Obj)         -- next: exchange on the mutex
   | fadd (own : List Obj)        -- next: m_nCurEpoch.fetch_add(1)
   | flip (w : W) (r : Bool)      -- next: fetch_xor of the phase bit; r = false: first flip_and_wait, true: second
   | waitLd (w : W) (r : Bool) (i : Nat)              -- next: load ctl of thread i
-  | waitG (w : W) (r : Bool) (i : Nat) (c : Ctl)     -- next: load global control word, decide
+  | waitG (w : W) (r : Bool) (i : Nat) (c : Ctl)     -- next: load global control word, decide (only if c.nest ≠ 0)
   | release (w : W)              -- next: unlock
   -- clear_buffer(e)
   | clrPop (w : W)               -- next: pop
@@ -166,7 +173,8 @@ def invoke (s : St) (t : Tid) (op : GOp) : Option St :=
     | "rlock", [_] => some { s with pc := upd s.pc t .rlLoad, clock := s.clock + 1 }
     | "runlock", [_] =>
       if (s.ctl t).nest ≠ 0 then some { s with pc := upd s.pc t .ruLoad, clock := s.clock + 1 } else none
-    | "synchronize", [_] => some { s with pc := upd s.pc t (.acq []), clock := s.clock + 1 }
+    | "synchronize", [_] =>
+      some { s with pc := upd s.pc t (if s.buffered then .syncLd [] else .acq []), clock := s.clock + 1 }
     | "retire", [_, p] =>
       if s.retiredAt p.toNat = none then
         some { s with pc := upd s.pc t (if s.buffered then .retEpoch p.toNat else .acq [p.toNat]),
@@ -175,7 +183,10 @@ def invoke (s : St) (t : Tid) (op : GOp) : Option St :=
                       clock := s.clock + 1 }
       else none
     | "destruct", [_] =>
-      if allQuiet s then some { s with pc := upd s.pc t .dPop, dead := true, clock := s.clock + 1 } else none
+      if allQuiet s then
+        some { s with pc := upd s.pc t (if s.buffered then .dPop else .done), dead := true,
+                      destroyed := !s.buffered, clock := s.clock + 1 }
+      else none
     | _, _ => none
   else none
 
@@ -189,7 +200,7 @@ def step (s : St) (t : Tid) : Option (St × Ev) :=
     some ({ s with pc := upd s.pc t (.rlStore s.gctl), clock := s.clock + 1 }, ⟨"ld", "gctl", b2s s.gctl, ""⟩)
   | .rlStore g =>
     some ({ s with ctl := upd s.ctl t ⟨1, g⟩, secStart := upd s.secStart t (some s.clock),
-                   pc := upd s.pc t .done, clock := s.clock + 1 }, ⟨"st", ctlLoc t, ctlStr ⟨1, g⟩, "fence"⟩)
+                   pc := upd s.pc t .done, clock := s.clock + 1 }, ⟨"st", ctlLoc t, ctlStr ⟨1, g⟩, ""⟩)
   | .rlNest c =>
     some ({ s with ctl := upd s.ctl t ⟨c.nest + 1, c.phase⟩, pc := upd s.pc t .done, clock := s.clock + 1 },
           ⟨"st", ctlLoc t, ctlStr ⟨c.nest + 1, c.phase⟩, ""⟩)
@@ -207,10 +218,12 @@ def step (s : St) (t : Tid) : Option (St × Ev) :=
       some ({ s with buf := s.buf ++ [(p, tag)], place := upd s.place p .buf,
                      pc := upd s.pc t (.sizeLd own), clock := s.clock + 1 }, ⟨"push", "buf", toString p, "1"⟩)
     else
-      some ({ s with pc := upd s.pc t (.acq (p :: own)), clock := s.clock + 1 }, ⟨"push", "buf", toString p, "0"⟩)
+      some ({ s with pc := upd s.pc t (.syncLd (p :: own)), clock := s.clock + 1 }, ⟨"push", "buf", toString p, "0"⟩)
   | .sizeLd own =>
-    some ({ s with pc := upd s.pc t (if s.buf.length ≥ s.cap then .acq own else finPC own), clock := s.clock + 1 },
+    some ({ s with pc := upd s.pc t (if s.buf.length ≥ s.cap then .syncLd own else finPC own), clock := s.clock + 1 },
           ⟨"ld", "buf.size", toString s.buf.length, ""⟩)
+  | .syncLd own =>
+    some ({ s with pc := upd s.pc t (.acq own), clock := s.clock + 1 }, ⟨"ld", "epoch", toString s.epoch, ""⟩)
   | .acq own =>
     match s.locked with
     | none =>
@@ -227,7 +240,9 @@ def step (s : St) (t : Tid) : Option (St × Ev) :=
                    pc := upd s.pc t (afterScan s.nthreads w r 0), clock := s.clock + 1 },
           ⟨"xor", "gctl", b2s s.gctl, "1"⟩)
   | .waitLd w r i =>
-    some ({ s with pc := upd s.pc t (.waitG w r i (s.ctl i)), clock := s.clock + 1 }, ⟨"ld", ctlLoc i, ctlStr (s.ctl i), ""⟩)
+    some ({ s with pc := upd s.pc t (if (s.ctl i).nest = 0 then afterScan s.nthreads w r (i + 1)
+                                     else .waitG w r i (s.ctl i)),
+                   clock := s.clock + 1 }, ⟨"ld", ctlLoc i, ctlStr (s.ctl i), ""⟩)
   | .waitG w r i c =>
     some ({ s with pc := upd s.pc t (if c.nest ≠ 0 ∧ c.phase ≠ s.gctl then .waitLd w r i
                                      else afterScan s.nthreads w r (i + 1)),
@@ -237,7 +252,7 @@ def step (s : St) (t : Tid) : Option (St × Ev) :=
                    clock := s.clock + 1 }, ⟨"st", "lock", "0", ""⟩)
   | .clrPop w =>
     match s.buf with
-    | [] => some ({ s with pc := upd s.pc t (finPC w.own), clock := s.clock + 1 }, ⟨"pop", "buf", "", "0"⟩)
+    | [] => some ({ s with pc := upd s.pc t (finPC w.own), clock := s.clock + 1 }, ⟨"pop", "buf", "-", "0"⟩)
     | (q, tag) :: rest =>
       some ({ s with buf := rest, place := upd s.place q (.thr t),
                      pc := upd s.pc t (if tag ≤ w.e then .clrDisp w q else .push q tag w.own),
@@ -250,7 +265,7 @@ def step (s : St) (t : Tid) : Option (St × Ev) :=
                    pc := upd s.pc t (finPC rest), clock := s.clock + 1 }, ⟨"dispose", "obj", toString p, ""⟩)
   | .dPop =>
     match s.buf with
-    | [] => some ({ s with destroyed := true, pc := upd s.pc t .done, clock := s.clock + 1 }, ⟨"pop", "buf", "", "0"⟩)
+    | [] => some ({ s with destroyed := true, pc := upd s.pc t .done, clock := s.clock + 1 }, ⟨"pop", "buf", "-", "0"⟩)
     | (q, _) :: rest =>
       some ({ s with buf := rest, place := upd s.place q (.thr t), pc := upd s.pc t (.dDisp q),
                      clock := s.clock + 1 }, ⟨"pop", "buf", toString q, "1"⟩)
@@ -267,11 +282,22 @@ def result (s : St) (t : Tid) : Option (St × GRet) :=
 
 def model : Model St := ⟨invoke, step, result⟩
 
+/-- Value of the word `key=<n>` in a case header. -/
+def cfgNat (key : String) (cfg : List String) : Option Nat :=
+  cfg.findSome? (fun w => if w.startsWith (key ++ "=") then (w.drop (key.length + 1)).toNat? else none)
+
+/-- Initial state from the words of a case header (`# family=rcu variant=gpb flavour=gpb nthreads=3 cap=4 bufcap=4`
+    split on spaces): `flavour=gpi|gpb`, `nthreads=<n>`, `cap=<n>`, `bufcap=<n>`; defaults gpb / 4 / 4 / 4. -/
+def initCfg (cfg : List String) : St :=
+  init (!(cfg.contains "flavour=gpi")) ((cfgNat "nthreads" cfg).getD 4) ((cfgNat "cap" cfg).getD 4)
+    ((cfgNat "bufcap" cfg).getD 4)
+
 /-- The objects held in the local variables of a thread at a program point. -/
 def locals : PC → List Obj
   | .retEpoch p => [p]
   | .push p _ own => p :: own
   | .sizeLd own => own
+  | .syncLd own => own
   | .acq own => own
   | .fadd own => own
   | .flip w _ => w.own
